@@ -38,8 +38,9 @@ RunDeps(p, it, i, acc, reads, val) ==
     IF i > Len(it.deps) THEN [acc |-> acc, reads |-> reads]
     ELSE LET d == it.deps[i]
              v == val[d]
-         IN  RunDeps(p, it, i + 1, StepV(p, it, i, acc, v),
-                     Append(reads, <<d, v>>), val)
+             \* mode 4 (hedged read): the first dependency never contributes to the result
+             acc2 == IF it.mode = 4 /\ i = 1 THEN acc ELSE StepV(p, it, i, acc, v)
+         IN  RunDeps(p, it, i + 1, acc2, Append(reads, <<d, v>>), val)
 
 RECURSIVE RunItems(_, _, _, _, _, _)
 RunItems(p, nd, k, acc, reads, val) ==
